@@ -209,3 +209,57 @@ restore_namedtuple = function(
            'forall(StrKey, lambda k: implies(k in xs.vals, result.vals[k] == fsd(xs.vals[k], state_dict[k])))'],
   bindings=B, props=('C10',), native=NH('flax.serialization', '_restore_namedtuple'))
 restore_namedtuple.locals = {'fields': TreeMap, 'sd_keys': SetOf(Key), 'nt_keys': SetOf(Key)}
+
+# ---- struct.dataclass handlers: the state dict holds exactly the data fields ---------------------------------------------
+ST = 'flax/struct.py'
+DCObj = opaque('DataclassInstance', is_str=False)
+dc_field = UFn('dataclass_field_value', [DCObj, Key], Tree, 'getattr(x, name) of a dataclass instance')
+dc_replace = UFn('dataclass_replace', [DCObj, TreeMap], DCObj, 'x.replace(**updates)')
+DCObj.getattr_dyn = lambda ex, v, name: ex.call_value(dc_field, [v, ex.coerce(name, Key)], {})
+
+
+def _dc_replace(ex, v, a, kw):
+  upd = ex.coerce(kw['**'], TreeMap)
+  ex.ghost['updates'] = upd
+  return ex.call_value(dc_replace, [v, upd], {})
+
+
+DCObj.methods = {'replace': _dc_replace}
+KeySeq = SeqOf(Key)
+DISTINCT = 'forall(Int, Int, lambda i, j: implies(0 <= i and i < j and j < len(data_fields), data_fields[i] != data_fields[j]))'
+IN_FIELDS = lambda k: f'exists(Int, lambda i: 0 <= i and i < len(data_fields) and data_fields[i] == {k})'
+
+dc_to_state_dict = function(
+  ST + '::dataclass.<locals>.to_state_dict', params=[('x', DCObj)], free=[('data_fields', KeySeq)], returns=SDMap,
+  requires=[DISTINCT],
+  ensures=[
+    f'forall(StrKey, lambda k: (k in result) == {IN_FIELDS("k")})',
+    'forall(Int, lambda i: implies(0 <= i and i < len(data_fields), result[data_fields[i]] == sd(dataclass_field_value(x, data_fields[i]))))',
+  ],
+  bindings={'serialization.to_state_dict': sd}, props=('C10',))
+dc_to_state_dict.dict_hint = SDMap
+dc_to_state_dict.str_sort = Key
+
+dc_from_state_dict = function(
+  ST + '::dataclass.<locals>.from_state_dict', params=[('x', DCObj), ('state', SDMap)], free=[('data_fields', KeySeq)], returns=DCObj,
+  requires=[DISTINCT],
+  # a data field missing from the saved state raises, and so does ANY saved name that is not a data field
+  # (static fields are not part of the state: a saved entry named after one is an unknown field too)
+  raises={'ValueError': f'exists(Int, lambda i: 0 <= i and i < len(data_fields) and not (data_fields[i] in state)) or '
+                        f'exists(StrKey, lambda k: k in state and not {IN_FIELDS("k")})'},
+  ensures=[
+    "result == dataclass_replace(x, ghost('updates'))",
+    f"forall(StrKey, lambda k: (k in ghost('updates')) == {IN_FIELDS('k')})",
+    "forall(Int, lambda i: implies(0 <= i and i < len(data_fields), ghost('updates')[data_fields[i]] == fsd(dataclass_field_value(x, data_fields[i]), state[data_fields[i]])))",
+  ],
+  invariants={0: [
+    'forall(StrKey, lambda k: (k in updates) == exists(Int, lambda i: 0 <= i and i < _k and data_fields[i] == k))',
+    'forall(Int, lambda i: implies(0 <= i and i < _k, updates[data_fields[i]] == fsd(dataclass_field_value(x, data_fields[i]), old(state)[data_fields[i]])))',
+    'forall(StrKey, lambda k: (k in state) == (k in old(state) and not exists(Int, lambda i: 0 <= i and i < _k and data_fields[i] == k)))',
+    'forall(StrKey, lambda k: implies(k in state, state[k] == old(state)[k]))',
+    'forall(Int, lambda i: implies(0 <= i and i < _k, data_fields[i] in old(state)))',
+  ]},
+  bindings=dict(B, **{'serialization.from_state_dict': B['from_state_dict'], 'serialization.current_path': B['current_path']}), props=('C10',))
+dc_from_state_dict.locals = {'updates': TreeMap}
+dc_from_state_dict.dict_hint = TreeMap
+dc_from_state_dict.str_sort = Key
